@@ -19,10 +19,13 @@ def main():
     ap.add_argument("--jobs", type=int)
     ap.add_argument("--wall", type=float)
     ap.add_argument("--replay")
+    ap.add_argument("--worker", action="store_true")
     a = ap.parse_args()
     if a.tier not in ("quick", "thorough"):
         a.tier = "quick"
     from sim import runner
+    if a.worker:
+        sys.exit(runner.worker_main())
     if a.replay:
         if os.environ.get("PYTHONHASHSEED") is None:
             os.environ["PYTHONHASHSEED"] = "0"
